@@ -634,3 +634,78 @@ def gen_parents(seed, drv):
         g.tick()
     g.sc["order"] = g.order
     return g
+
+
+def gen_opcount_midbatch(seed, drv, suspend_it=False):
+    """single-operator containers: a batch in which a legal one-operator assignment is followed by one with two operators.  The pool's admission check lets the
+    batch through, the operator-count check refuses it *after* the first container has started -- that container runs on, and its CPU and RAM must have been
+    taken out of the pool; later a batch sized to the whole pool is submitted"""
+    rng = random.Random(seed)
+    tps = rng.choice([1, 2, 4])
+    cpus = rng.choice([4, 8])
+    cfg = {"tps": tps, "multi": False, "over": False, "npools": rng.choice([1, 2]), "cpus": cpus, "ram": "16"}
+    small = F(1, 64)
+    pipes = [{"prio": 3, "ops": [simple_op(tps, rng.randint(2, 4), fixed=small)]},
+             {"prio": 2, "ops": [simple_op(tps, 1, fixed=small), simple_op(tps, 1, fixed=small, parents=[0])]},
+             {"prio": 3, "ops": [simple_op(tps, rng.randint(1, 3), fixed=small)]},
+             {"prio": 3, "ops": [simple_op(tps, 2, fixed=small)]}]
+    g = _mk(rng, cfg, pipes, drv)
+    pool = rng.randrange(cfg["npools"])
+    if rng.random() < 0.5:
+        g.assign(pool, 1, 1, [(2, 0)])
+        g.tick()
+    g.assign(pool, rng.choice([1, 2]), rng.choice([1, 2, 4]), [(0, 0)])
+    g.assign(pool, 1, 1, [(1, 0), (1, 1)])
+    g.count("opcount_refusal_after_a_started_container")
+    if suspend_it:
+        # the container started by the refused batch has not run a single tick: it has finished no operator (and holds one only), so it cannot be suspended
+        g.tick()
+        act = [] if g.dead else g.pools()[pool]["A"]
+        if act:
+            g.emit(["suspend", pool, act[-1][0]])
+            g.count("suspend_req_for_a_container_that_never_ran")
+    for _ in range(rng.randint(1, 6)):
+        if g.dead:
+            break
+        g.tick()
+    if not g.dead:
+        g.assign(pool, cpus, 16, [(3, 0)])       # the whole pool: admissible only if everything has been given back, and nothing more than that
+        for _ in range(4):
+            if g.dead:
+                break
+            g.tick()
+    g.sc["order"] = g.order
+    return g
+
+
+def gen_unrelated_branch_completes(seed, drv):
+    """two branches in one pipeline, listed interleaved (a, b, d, c, e with a -> d -> e and b -> c): the fast branch a, d, e completes while the slow root b
+    is still running, so as many operators have completed as are listed before c -- and c's only parent has not.  c is then asked to start, alone and as a
+    later operator of a container: it must be refused"""
+    rng = random.Random(seed)
+    tps = rng.choice([1, 2])
+    cfg = {"tps": tps, "multi": rng.random() < 0.5, "over": False, "npools": rng.choice([1, 2]), "cpus": 8, "ram": "8"}
+    small = F(1, 64)
+    extra = rng.randint(0, 2)                      # more operators on the fast branch
+    ops = [simple_op(tps, 1, fixed=small),                      # 0 a
+           simple_op(tps, 12 + 2 * extra, fixed=small),         # 1 b (slow)
+           simple_op(tps, 1, fixed=small, parents=[0]),         # 2 d
+           simple_op(tps, 1, fixed=small, parents=[1]),         # 3 c
+           simple_op(tps, 1, fixed=small, parents=[2])]         # 4 e
+    for i in range(extra):
+        ops.append(simple_op(tps, 1, fixed=small, parents=[len(ops) - 1]))
+    g = _mk(rng, cfg, [{"prio": 3, "ops": ops}], drv)
+    g.assign(0, 1, 1, [(0, 1)])
+    g.assign(0, 1, 1, [(0, 0)])
+    g.tick(); g.tick()
+    for o in [2, 4] + list(range(5, 5 + extra)):
+        g.assign(cfg["npools"] - 1, 1, 1, [(0, o)])
+        g.tick(); g.tick()
+    g.count("start_with_running_parent_after_an_unrelated_branch_completed")
+    g.assign(0, 1, 1, [(0, 3)])
+    for _ in range(3):
+        if g.dead:
+            break
+        g.tick()
+    g.sc["order"] = g.order
+    return g
